@@ -30,7 +30,8 @@ Judge(rec) ==
       pre == StdPre(rec.envid)
       fs == IF died THEN [stage |-> "none"] ELSE FromSource(BuiltinOps, o.src, env, pre, StdPost(rec.envid)) IN
   IF died THEN {"total"}
-  ELSE IF fs.stage # "run" THEN (IF fs.stage = "ood" THEN {} ELSE {"frontend"})
+  \* a source the specification does not accept (lexing, parsing, checking) must not be accepted by the code either
+  ELSE IF fs.stage # "run" THEN (IF fs.stage = "ood" \/ o.dbg.class = "reject" THEN {} ELSE {"frontend"})
   ELSE LET d == DebugEval(fs.e, env, FunTable2(pre, StdPost(rec.envid)))
            g == o.dbg
            judged == d.st \in {"ok", "fail"} IN
